@@ -20,8 +20,10 @@ from vlib.harness import result, digest, violation, load_source, unload, compile
 from vlib.vsim import Meta, Unsupported, fmt
 
 PID = 'C20'
-RULE = ("layouts: random placement of MemWord/MemUWord/Word/Register(MemField,MemUField,Field,FlagField,PushOnNotify)/Array/"
-        "nested RegFile/Memory(4 mask modes, inline, non power-of-two, unaligned)/Input/Output in a 512 byte space; per layout "
+RULE = ("layouts: random placement of MemWord/MemUWord/Word/UWord/SWord/Register(MemField,MemUField,Field,FlagField,PushOnNotify)/"
+        "event-counter registers (PushOnNotify + FlagOnNotify, read and write)/Array/nested RegFile/Memory(4 mask modes, inline, non "
+        "power-of-two, unaligned)/RoMemory/custom AddrRange (absolute and relative)/Input/Output in a 512 byte space, directly or "
+        "behind axi4_light.Interconnect (window in a 1024 byte space, rest answered by the background range); per layout "
         "several master profiles (blocking, pipelined, write-heavy skew, slow readies, random) x 150 transactions (thorough 600) "
         "with per-clock random delays on all five channels.  distinct_nontrivial = (layout, profile) runs with >= 50 answered "
         "transactions and >= 8 distinct addresses.")
@@ -201,6 +203,7 @@ class Run:
                 self.fail('notification-count', f"{port}: {self.note_counts[port]} pulse(s) for {want} completed {'read' if kind == 'rd' else 'write'}(s) of register {reg}")
                 return
         model.store = final.store
+        model.wcnt = final.wcnt
         cnt['write_transactions'] += len(writes)
         cnt['read_transactions'] += len(reads)
         self.addresses |= {t['addr'] for t in writes} | {t['addr'] for t in reads}
@@ -312,7 +315,8 @@ class Run:
                 for h in hws:
                     cands.add(pm.read(rd['addr'], h, inputs))
             cnt['read_values_checked'] += 1
-            if got.__class__ is not int or got not in cands:
+            care = axigen.M32 if exact else model.care_mask(rd['addr'])
+            if got.__class__ is not int or (got & care) not in {c & care for c in cands}:
                 ent = model.map.get(rd['addr'])
                 what = f"{ent[0].kind} {ent[0].name}[{ent[1]}]" if ent else "unmapped"
                 self.fail('read-value:' + (ent[0].kind if ent else 'unmapped'),
@@ -336,6 +340,9 @@ class Run:
             reads[st['ar']]['must'] = b_before
             st['ar'] += 1; drv['arvalid'] = 0
         if hs_r:
+            a = reads[st['r']]['addr']
+            if a in model.map and model.map[a][0].kind == 'creg':
+                model.rcnt[a] = model.rcnt.get(a, 0) + 1
             reads[st['r']]['r'] = clk; st['r'] += 1
 
 
